@@ -12,6 +12,7 @@ global size_of usize == 8;
 //@ include prelude/std_specs.rs
 //@ include units/dltcore/part.rs
 //@ include units/timesort/part.rs
+//@ include units/timesort/window.rs
 
 fn main() {}
 } // verus!
